@@ -382,18 +382,26 @@ def importer_tables(prog: Program) -> dict:
         f = Fold(env)
         # walk the if/elif chain
         def walk(stmts):
+            """False when the path of this label ends in a raise or at a
+            guard that cannot be evaluated."""
             for st in stmts:
                 if isinstance(st, ast.If):
                     t = f.ev(st.test)
                     if t is True:
-                        walk(st.body)
+                        if not walk(st.body):
+                            return False
                     elif t is False:
-                        walk(st.orelse)
+                        if not walk(st.orelse):
+                            return False
                     else:
-                        return
+                        return False
+                elif isinstance(st, ast.Raise):
+                    return False
                 else:
                     f.run([st])
-        walk(br.body)
+            return True
+        if not walk(br.body):
+            continue
         if ctor:
             c = ctor[0]
             args = list(c.args)
